@@ -295,6 +295,17 @@ def rejection_cases():
             spec = wf_spec(fmt, cons=[[[0, "c"], [0, "c"], [1, "c"]], [[1, "c"]]])
             return OBJ.build(spec)["data"]
         cases.append((fmt, "generalized_contraction", general_contraction, (False,), "PrepareDumpError"))
+
+        def ps_shell(fmt=fmt):
+            # a P-then-S shell is a generalized contraction that is not the SP shell FCHK keeps
+            spec = wf_spec(fmt, cons=[[[1, "c"], [0, "c"]], [[0, "c"]]])
+            return OBJ.build(spec)["data"]
+        cases.append((fmt, "ps_shell", ps_shell, (False,), "PrepareDumpError"))
+
+        def spd_shell(fmt=fmt):
+            spec = wf_spec(fmt, cons=[[[0, "c"], [1, "c"], [2, "c"]], [[0, "c"]]])
+            return OBJ.build(spec)["data"]
+        cases.append((fmt, "spd_shell", spd_shell, (False,), "PrepareDumpError"))
     for fmt in ("wfn", "wfx"):
         def pure(fmt=fmt):
             spec = wf_spec(fmt, cons=[[[0, "c"]], [[2, "p"]]])
@@ -337,6 +348,18 @@ def rejection_cases():
 def shard_rejections(ctx):
     from iodata import dump_one
 
+    for fmt, reason, builder, _allows, _expect in rejection_cases():
+        if reason in ("ps_shell", "spd_shell", "generalized_contraction", "occs_aminusb") and fmt != "fchk" or reason in ("ps_shell", "spd_shell", "generalized_contraction"):
+            # with allow_changes the object is converted: the dump succeeds (or fails pre-flight)
+            for existing in (False, True):
+                data = builder()
+                spec = {"kind": "rejection", "fmt": fmt, "reason": reason + "+allow", "allow_changes": True, "existing": existing}
+                path = os.path.join(ctx.tmpdir, OBJ.filename(fmt, "conv"))
+                call = lambda p, d=data: dump_one(d, p, allow_changes=True, fmt=fmt)
+                problems, outcome = run_call(call, path, existing, ("ok", "PrepareDumpError"),
+                                             f"C08/conversion/{fmt}/{reason}", False)
+                ctx.record(spec, outcome == "ok", [f"conversion:{reason}"])
+                ctx.report(spec, problems)
     for fmt, reason, builder, allows, expect in rejection_cases():
         for allow in allows:
             for existing in (False, True):
